@@ -49,7 +49,7 @@ def do_starts(w, scn):
             raise ValueError(via)
 
 
-def run_once(scn, schedule=(), policy="first", rng=None, crash=None, d1=True, max_steps=3000, **over):
+def run_once(scn, schedule=(), policy="first", rng=None, crash=None, d1=True, max_steps=3000, finale=None, **over):
     """Run the scenario once.
     schedule: choice indices to follow at the decision points (then `policy`: first|last|random).
     crash: None | {"frame": k} (kill instance i0 after k engine frames, restart at once)
@@ -146,6 +146,8 @@ def run_once(scn, schedule=(), policy="first", rng=None, crash=None, d1=True, ma
                 w.quiesce("D1")
         res.steps = n
         res.nframes = nframes
+        if finale is not None:
+            finale(w)
     except SimCrash:
         res.error = "SimCrash escaped"
     except BaseException as ex:       # an exception escaping a frame is an observation, not a harness failure
